@@ -824,6 +824,25 @@ pub fn families(nmax: usize) -> Vec<(String, Vec<Op>)> {
             format!("two-lanes({})", n),
             (0..n).map(|i| if i % 2 == 0 { s(nm(i), &[], &[0], 1 + (i % 5) as u8, vec![]) } else { s(nm(i), &[], &[1], 1 + ((i / 2) % 5) as u8, vec![]) }).collect(),
         ));
+        if n <= 7 {
+            // batches nested n deep (alternating hand-written / MultiDispatcher controllers, every level dispatching its
+            // inner plan twice): the innermost level writes A and has a thread-local system, the outermost level has a
+            // reader of A behind the batch; a level in the middle holds only a barrier besides the next batch
+            let mut inner: Vec<Op> = vec![s("deep".into(), &[], &[0], 3, vec![]), Op::Tl(SysSpec { name: String::new(), reads: vec![], writes: vec![], time: 3, deps: vec![] })];
+            for lvl in 0..n {
+                let mut v = vec![Op::Batch(BatchSpec { name: format!("b{}", lvl), deps: vec![], ctrl: if lvl % 3 == 2 { CtrlData::ReadC } else { CtrlData::Unit }, times: 2, multi: lvl % 2 == 1, fetch_data: false, inner })];
+                if lvl == n / 2 {
+                    v.insert(0, Op::Barrier);
+                }
+                inner = v;
+            }
+            let mut top = inner.clone();
+            top.push(s("out".into(), &[0], &[], 3, vec![]));
+            out.push((format!("nested-batches({}) + outer reader", n), top));
+            let mut top = vec![s("out".into(), &[0], &[], 1, vec![])];
+            top.extend(inner);
+            out.push((format!("outer reader + nested-batches({})", n), top));
+        }
         // n effective barriers: n resource-less systems each followed by a barrier, then two free systems, a barrier
         // and one more; the same with every barrier doubled, and with a leading barrier
         {
